@@ -121,6 +121,7 @@ def run_case(scn, mode, k1=None, k2=None, sig=None, count_only=False, watchdog=N
         signal.alarm(0)
         if mode == 'line':
             info['n_lines'] = state['inj'].stop()
+            info['save_ks'] = list(state['inj'].ks_by_file.get('cache.py', ()))
         else:
             signal.signal(signal.SIGINT, signal.SIG_IGN)
             state['done'] = True
@@ -341,8 +342,15 @@ def jobs_for(rep, cfg):
         n = c['n_lines'] or 0
         rep.count('serial_line_points', n)
         stride = cfg['serial_stride'] * (3 if displays else 1)
+        # every line of labtech/cache.py (is_cached, save with its clean-up, load) and the line that follows: the
+        # window in which an interrupt can leave a half-written entry; its own job kind, never strided
+        save_ks = sorted({k2 for k in (c.get('save_ks') or ()) for k2 in (k, k + 1)})
+        rep.count('serial_cache_line_points', len(save_ks))
+        for k in save_ks:
+            jobs.append(('saveline', scn, k, None, None))
         for k in range(1 + (i % stride), n + 2, stride):
-            jobs.append(('line', scn, k, None, None))
+            if k not in save_ks:
+                jobs.append(('line', scn, k, None, None))
     for backend, key in (('fork', 'fork'), ('spawn', 'spawn')):
         for i in range(cfg[key + '_scn']):
             scn = make_scn(rep.seed, i, backend, cold=(i % 2 == 1))
@@ -404,7 +412,8 @@ def run_job(rep, job):
     from vlab.dagcommon import scn_summary
     mode, scn, k1, k2, sig = job
     mp = mode == 'mpline'
-    if mp:
+    saveline = mode == 'saveline'
+    if mp or saveline:
         mode = 'line'
     r = run_case(scn, mode, k1=k1, k2=k2, sig=sig, mp=mp)
     if any(k.startswith('hang@') for k, _ in r.get('bad', [])):
@@ -428,6 +437,8 @@ def run_job(rep, job):
     rep.case([json.dumps(scn['spec'], sort_keys=True), scn['backend'], mode, k1, k2, json.dumps(sig)], True)
     rep.count('interrupts_delivered')
     rep.count(f'{"mpio" if mp else mode}_{scn["backend"]}_{tag}')
+    if saveline:
+        rep.count('line_serial_in_cache_py')
     for s in r['fired']:
         rep.seen('interrupt_sites', f"{s['file']}:{s['func']}")
         if s.get('delivered_in'):
@@ -459,6 +470,8 @@ def run_shard(rep):
             return 'sigint'
         if mode == 'mpline':
             return 'mpio'
+        if mode == 'saveline':
+            return 'a-saveline'
         if k2 is not None:
             return 'double'
         return 'line-' + scn['backend']
@@ -468,7 +481,7 @@ def run_shard(rep):
     mine = []
     while any(groups.values()):      # round-robin over job kinds so that a time cut hits every kind evenly
         for kd in sorted(groups):
-            take = 5 if kd == 'line-serial' else 1
+            take = 5 if kd in ('line-serial', 'a-saveline') else 1
             mine += groups[kd][:take]
             del groups[kd][:take]
     for job in mine:
